@@ -62,4 +62,6 @@ def stages(tier, rng, only=None):
     if tier == "thorough":
         out.append(ac.stage("grid3x3", PID, lambda: ac.cases(grids.datasets(3, 3), ["PickAPerm"], SCHEMES), _nt))
         out.append(ac.stage("grid4x2", PID, lambda: ac.cases(grids.datasets(4, 2), ["PickAPerm"], SCHEMES), _nt))
+    out.append(ac.wide_stage("wide_1000", PID, lambda: ac.wide_cases(rng, 2 if tier == "quick" else 20, ["PickAPerm"],
+                                                                      flags=(0,), complete_only=True)))
     return [s for s in out if not only or s.name == only]
